@@ -6,7 +6,7 @@ Run-time side (implementation only, public API): every literal is compiled in fa
 into two engines and queried; to_python of the answers, unification with terms built through
 atom/functor/listpair/makelist (both directions, same and other engine, and a mutated term that must NOT unify),
 object identity of atoms per engine."""
-import random
+import functools, io, os, random, shutil, subprocess, sys
 from lib import ast_io
 from lib.terms import g_str, g_list
 from lib import terms as TM
@@ -52,8 +52,159 @@ VARS = ['X', 'Y', 'Tail', '_G', 'Abc']
 FNAMES = ['f', 'g', 'foo', 'point', 'hello world', "it's", 'é', 'A', '123', '[]', '']
 BINOPS = ['=', '\\=', '==', '\\==', '<', '>', '=<', '>=']
 
+@functools.lru_cache(None)
+def text_layer_chars():
+    """characters that a text layer of Python may treat specially, computed from this interpreter (nothing listed by hand but
+    NUL, ctrl-Z and the byte order marks): everything str.splitlines breaks a line at, everything str.isspace, the controls"""
+    br, sp = [], []
+    for cp in list(range(0, 0xD800)) + list(range(0xE000, 0x10000)):
+        c = chr(cp)
+        if c == '\\':
+            continue
+        if len(('a' + c + 'b').splitlines()) > 1: br.append(c)
+        elif c.isspace(): sp.append(c)
+    ctl = [chr(c) for c in range(0, 32)] + ['\x7f'] + [chr(c) for c in range(0x80, 0xa0)]
+    return {'breaks': tuple(br), 'spaces': tuple(sp), 'controls': tuple(ctl), 'marks': ('\ufeff', '\ufffe', '\x00', '\x1a')}
+
+def rnd_text_layer_atom(rng):
+    """an atom text of ordinary characters with line breaks of every kind (CR LF, lone CR, VT, FF, FS..RS, NEL, LS, PS),
+    other white space, control characters and byte order marks in it"""
+    cl = text_layer_chars()
+    out = []
+    for _ in range(rng.choice([1, 2, 2, 3, 4, 6])):
+        r = rng.random()
+        if r < 0.30: out.append(rng.choice(['a', 'b', 'line', 'x y', '\u00e9', '\u65e5', 'Z', '7', "'"]))
+        elif r < 0.45: out.append('\r\n')
+        elif r < 0.55: out.append('\r')
+        elif r < 0.59: out.append('\n')
+        elif r < 0.62: out.append('\n\r')
+        elif r < 0.78: out.append(rng.choice(cl['breaks']))
+        elif r < 0.86: out.append(rng.choice(cl['spaces']))
+        elif r < 0.93: out.append(rng.choice(cl['controls']))
+        else: out.append(rng.choice(cl['marks']))
+    return ''.join(out)
+
 def rnd_atom(rng):
-    return ['atom', rng.choice(PLAIN) if rng.random() < 0.4 else rng.choice(QUOTED)]
+    r = rng.random()
+    if r < 0.12: return ['atom', rnd_text_layer_atom(rng)]
+    return ['atom', rng.choice(PLAIN) if r < 0.45 else rng.choice(QUOTED)]
+
+# ---- print-ambiguous literals: different literals whose text is the same once the quotes are left out
+
+def flat_text(t, sep=',', atoms='raw'):
+    """the text of a literal as a printer that does not quote atoms shows it (str(), a log line, a debug comment);
+    atoms='source': atoms in source spelling; atoms='repr': Python repr of the name unless it starts like a word"""
+    k = t[0]
+    if k == 'atom':
+        if atoms == 'source': return ast_io.atom_text(t[1])
+        if atoms == 'repr' and not (t[1][:1].isalpha() or t[1][:1] == '_'): return repr(t[1])
+        return t[1]
+    if k in ('num', 'var'): return t[1]
+    if k == 'fun':
+        name = flat_text(['atom', t[1]], sep, atoms)
+        return '%s(%s)' % (name, sep.join(flat_text(a, sep, atoms) for a in t[2])) if t[2] else name
+    if k == 'list': return '[' + sep.join(flat_text(a, sep, atoms) for a in t[1]) + ']'
+    if k == 'pair':
+        items, tail = [t[1]], t[2]
+        while tail[0] == 'pair':
+            items.append(tail[1]); tail = tail[2]
+        return '[' + sep.join(flat_text(a, sep, atoms) for a in items) + '|' + flat_text(tail, sep, atoms) + ']'
+    raise ValueError(t)
+
+def _subterm_paths(t, p=()):
+    yield p
+    k = t[0]
+    if k == 'fun':
+        for i, a in enumerate(t[2]): yield from _subterm_paths(a, p + ((2, i),))
+    elif k == 'list':
+        for i, a in enumerate(t[1]): yield from _subterm_paths(a, p + ((1, i),))
+    elif k == 'pair':
+        yield from _subterm_paths(t[1], p + ((1, None),))
+
+def _get(t, p):
+    for slot, i in p:
+        t = t[slot] if i is None else t[slot][i]
+    return t
+
+def _put(t, p, new):
+    if not p: return new
+    (slot, i), rest = p[0], p[1:]
+    t = list(t)
+    if i is None:
+        t[slot] = _put(t[slot], rest, new)
+    else:
+        t[slot] = list(t[slot]); t[slot][i] = _put(t[slot][i], rest, new)
+    return t
+
+def ambiguate(rng, t):
+    """a literal that differs from t and reads like t when printed without quotes: one subterm, or a run of neighbouring
+    arguments / list items (with the separators between them), or a list pattern's inside, becomes ONE atom whose name is
+    that text; a number, a variable or `_` becomes the atom of that spelling.  None if the text cannot be an atom name."""
+    sep = rng.choice([',', ',', ', '])
+    style = rng.choice(['raw', 'raw', 'raw', 'source', 'repr'])
+    paths = list(_subterm_paths(t))
+    for _ in range(8):
+        p = rng.choice(paths)
+        u = _get(t, p)
+        r = rng.random()
+        new = None
+        if u[0] in ('fun', 'list') and len(u[2 if u[0] == 'fun' else 1]) >= 2 and r < 0.6:
+            slot = 2 if u[0] == 'fun' else 1
+            args = u[slot]
+            i = rng.randrange(0, len(args) - 1)
+            j = rng.randrange(i + 1, len(args))
+            merged = ['atom', sep.join(flat_text(a, sep, style) for a in args[i:j + 1])]
+            new = list(u); new[slot] = args[:i] + [merged] + args[j + 1:]
+        elif u[0] == 'pair' and r < 0.6:
+            new = ['list', [['atom', flat_text(u, sep, style)[1:-1]]]]
+        elif u[0] == 'atom':
+            new = ['atom', rng.choice([ast_io.atom_text(u[1], True), repr(u[1]), u[1] + ' ', ' ' + u[1], '"' + u[1] + '"'])]
+        elif p or u[0] in ('num', 'var'):
+            new = ['atom', flat_text(u, sep, style)]
+        if new is None or new == u:
+            continue
+        v = _put(t, p, new)
+        if any('\\' in a for a in atoms_of(v)) or v == t:
+            continue
+        return v
+    return None
+
+SIMPLE_ATOMS = ['a', 'b', 'i', 'x', 'y', 'foo', 'h', 'nil', 'aB', 'A', 'X', '_', '_x', 'two words', "it's", '1', '1.0', '0', '[]', "'", '\u00e9', 'a|b', '']
+
+def rnd_simple(rng, depth, top=True):
+    """a small literal with mostly word-like atoms (the kind whose unquoted print can be mistaken for structure)"""
+    r = rng.random()
+    if not top and (depth <= 0 or r < 0.35):
+        r = rng.random()
+        if r < 0.62: return ['atom', rng.choice(SIMPLE_ATOMS)]
+        if r < 0.76: return ['num', rng.choice(NUMS)]
+        if r < 0.82: return ['list', []]
+        if r < 0.94: return ['var', rng.choice(VARS)]
+        return ['var', '_']
+    r = rng.random()
+    n = rng.choice([1, 2, 2, 2, 3])
+    if r < 0.5:
+        return ['fun', rng.choice(['f', 'g', 'h', 'foo', 'two words', 'A', '']), [rnd_simple(rng, depth - 1, False) for _ in range(n)]]
+    if r < 0.85:
+        return ['list', [rnd_simple(rng, depth - 1, False) for _ in range(n)]]
+    t = ['var', rng.choice(['Tail', 'X', '_'])]
+    for x in reversed([rnd_simple(rng, depth - 1, False) for _ in range(n)]):
+        t = ['pair', x, t]
+    return t
+
+def ambiguous_group(rng):
+    """2-4 DIFFERENT literals of one program that print alike without quotes, e.g. f(a,b) f('a,b') f('a', b) 'f(a,b)'"""
+    base = rnd_simple(rng, rng.choice([1, 1, 2, 2, 3]))
+    group = [base]
+    for _ in range(rng.choice([1, 2, 3])):
+        v = ambiguate(rng, rng.choice(group))
+        if v is not None and v not in group:
+            group.append(v)
+    if rng.random() < 0.35:
+        w = rng.choice([lambda x: ['fun', 'w', [x]], lambda x: ['list', [x]], lambda x: ['fun', 'k', [['atom', 'c'], x]]])
+        group = [w(x) for x in group]
+    rng.shuffle(group)
+    return group
 
 def rnd_lit(rng, depth, allow_var=True):
     r = rng.random()
@@ -228,7 +379,13 @@ def make_case(rng, lits):
     clauses.append(['eq', [['var', 'A'], ['var', 'B']], ['call', '=', [['var', 'A'], ['var', 'B']]]])
     for j, a in enumerate(atoms):
         clauses.append(['at%d' % j, [['atom', a]], ['true']])
-    src = ast_io.program_text(clauses)
+    # all literals of the program together in ONE clause: in one head, and in one body
+    clauses.append(['allh', list(lits), ['true']])
+    goals = [['call', '=', [['var', 'Res%d' % i], lit]] for i, lit in enumerate(lits)]
+    body = goals[-1]
+    for g in reversed(goals[:-1]):
+        body = ['and', g, body]
+    clauses.append(['allb', [['var', 'Res%d' % i] for i in range(len(lits))], body])
     muts = [mutate_leaf(rng, l) for l in lits]
     for i, m in enumerate(muts):
         if m is not None:
@@ -236,16 +393,28 @@ def make_case(rng, lits):
             # a term that differs in one constant never unifies with the literal: \+ succeeds exactly once
             clauses.append(['neg%d' % i, vargs, ['not', ['call', '=', [lits[i], m]]]])
             clauses.append(['pos%d' % i, vargs, ['call', '=', [lits[i], lits[i]]]])
-    src = ast_io.program_text(clauses)
+    # the layout between clauses is white space of the grammar: LF, CR LF, lone CR, blanks, tabs
+    sep = rng.choice(['\n', '\n', '\r\n', '\r\n', '\r', '\n\n', ' ', '\t\r\n ', '\r\r\n'])
+    src = sep.join(ast_io.clause_text(c) for c in clauses) + sep
     pool = (atoms or ['a']) + ['[]', 'zz', '']
     calls = [[rng.random() < 0.4, rng.choice(pool)] for _ in range(rng.choice([4, 8, 12, 16]))]
-    return {'src': src, 'lits': lits, 'envs': envs, 'atoms': atoms, 'muts': muts, 'clauses': clauses, 'atom_calls': calls}
+    return {'src': src, 'lits': lits, 'envs': envs, 'atoms': atoms, 'muts': muts, 'clauses': clauses, 'atom_calls': calls,
+            'cli_sub': rng.random() < 0.06}
 
 def gen(rng, tier):
-    n = 150 if tier == 'quick' else 2500
+    n = 115 if tier == 'quick' else 2000
     cases = []
     for _ in range(n):
         lits = [rnd_lit(rng, rng.choice([0, 1, 2, 2, 3, 3, 4, 6])) for _ in range(rng.choice([1, 2, 3, 4]))]
+        cases.append(make_case(rng, lits))
+    for _ in range(45 if tier == 'quick' else 800):
+        # different literals of ONE program whose texts coincide when the quotes are left out
+        cases.append(make_case(rng, ambiguous_group(rng)))
+    for _ in range(12 if tier == 'quick' else 200):
+        # atoms full of characters that text layers treat specially, alone and inside terms
+        lits = [['atom', rnd_text_layer_atom(rng)], ['fun', rng.choice(FNAMES), [['atom', rnd_text_layer_atom(rng)], ['list', [['atom', rnd_text_layer_atom(rng)]]]]]]
+        if rng.random() < 0.5:
+            lits.append(['fun', rnd_text_layer_atom(rng), [['var', 'X']]])
         cases.append(make_case(rng, lits))
     return cases
 
@@ -271,6 +440,20 @@ def builtin_corpus():
         [A('é'), A('é'), A('\U0001F600'), F('\U0001F600', A('\U0001F600')), L(A('日本語'), A('ß'))],
         [A('two\nlines'), A('x\r\ny'), F('two\nlines', A('\n'))],
     ]
+    cl = text_layer_chars()
+    br = list(cl['breaks'])
+    # every line-breaking character (computed: str.splitlines), alone, doubled with LF, inside a name, and the marks
+    groups.append([A('a' + c + 'b') for c in br[:4]])
+    groups.append([A('a' + c + 'b') for c in br[4:8]])
+    groups.append([A('a' + c + 'b') for c in br[8:]])
+    groups.append([A('\r'), A('\r\n'), A('\n\r'), A('a\r\r\nb')])
+    groups.append([F('r' + c + 's', A(c), L(A(c + '\n'))) for c in br[:6]])
+    groups.append([A(m + 'x') for m in cl['marks']] + [A('x' + cl['marks'][0])])
+    groups.append([L(A('x'), A('y')), L(A('x,y')), L(A('x'), A(',y')), A('[x,y]')])
+    groups.append([F('f', A('a'), A('b')), F('f', A('a,b')), F('f', A('a'), A('b'), A('c')), F('f', A('a,b'), A('c')), F('f', A('a'), A('b,c'))])
+    groups.append([F('g', F('h', A('i'))), F('g', A('h(i)')), A('g(h(i))'), F('g', F('h', A('i')), A('j')), F('g', A('h(i),j'))])
+    groups.append([F('f', V('X')), F('f', A('X')), F('f', V('_')), F('f', A('_')), F('f', ['num', '1']), F('f', A('1'))])
+    groups.append([P([A('a')], V('T')), L(A('a|T')), L(A('a'), V('T')), L(A('a'), A('T'))])
     return [make_case(rng, g) for g in groups]
 
 def model_expr(case):
@@ -369,6 +552,115 @@ def _succeeds(E, a, b, after=None):
         if after: r = after()
     return [n, r]
 
+def _struct(yp, X):
+    return TM.term_obs(TM.ImplTerms([yp]).read(X))
+
+def _scratch():
+    from lib import coqrun
+    d = os.path.join(coqrun.VERIF, '.work', 'c16-%d' % os.getpid())
+    os.makedirs(d, exist_ok=True)
+    return d
+
+def _cli_inprocess(args, stdin_bytes, d):
+    """the command line's main function (click), called in this process: yldpc -o <file> <args>, standard input = the bytes"""
+    from yldprolog import compiler
+    outp = os.path.join(d, 'out.py')
+    if os.path.exists(outp):
+        os.unlink(outp)
+    old = sys.stdin
+    sys.stdin = io.TextIOWrapper(io.BytesIO(stdin_bytes), encoding='utf8')
+    try:
+        compiler.main.main(args=['-o', outp] + args, prog_name='yldpc', standalone_mode=False)
+    finally:
+        sys.stdin = old
+    with open(outp, 'rb') as f:
+        return f.read().decode('utf8')
+
+def _cli_real(args, stdin_bytes, d):
+    """the real command line: python -m yldprolog.compiler in a process of its own"""
+    outp = os.path.join(d, 'out_real.py')
+    if os.path.exists(outp):
+        os.unlink(outp)
+    env = {'PATH': os.environ.get('PATH', '/usr/bin:/bin'), 'PYTHONPATH': os.path.join(os.environ.get('VERIF_REPO', '/repo'), 'src'),
+           'LC_ALL': 'C.UTF-8', 'LANG': 'C.UTF-8', 'PYTHONHASHSEED': '0', 'PYTHONDONTWRITEBYTECODE': '1', 'HOME': d}
+    r = subprocess.run([sys.executable, '-m', 'yldprolog.compiler', '-o', outp] + args, input=stdin_bytes, capture_output=True, cwd=d, env=env, timeout=120)
+    if r.returncode != 0:
+        raise RuntimeError('exit status %d: %s' % (r.returncode, r.stderr.decode('utf8', 'replace')[-150:]))
+    with open(outp, 'rb') as f:
+        return f.read().decode('utf8')
+
+def _observe_min(E, code, case):
+    """what the literals of a compiled text denote (fact and body position: Python value and the term read structurally),
+    and whether the atoms are the engine's atoms of those names"""
+    yp = E.YP(); yp.load_script_from_string(code)
+    lits = []
+    for i, lit in enumerate(case['lits']):
+        vs = named_vars(lit)
+        o = []
+        for pred in ('fact', 'body'):
+            X = yp.variable()
+            o.append([[_topy(E, X), _struct(yp, X)] for _ in yp.query('%s%d' % (pred, i), [X] + [yp.variable() for _ in vs])])
+        lits.append(o)
+    atoms = []
+    for j, a in enumerate(case['atoms']):
+        X = yp.variable()
+        atoms.append([[E.get_value(X) is yp.atom(a), _struct(yp, X)] for _ in yp.query('at%d' % j, [X])])
+    return {'lits': lits, 'atoms': atoms}
+
+def _entry_points(E, case, code):
+    """the same source text given to the compiler in every way there is: as a string (with the default options and with an
+    options class), as a file holding exactly the UTF-8 bytes of the text, through the command line from a file and from
+    standard input.  -> name -> ['same'] (same Python text as `code`) | ['differs', same denotations?, detail] | ['raised', ..]"""
+    from yldprolog import compiler
+    src = case['src']
+    try:
+        data = src.encode('utf8')
+    except UnicodeEncodeError:
+        return {'file': ['skipped', 'the text has no UTF-8 form']}
+    d = _scratch()
+    path = os.path.join(d, 'prog.prolog')
+    with open(path, 'wb') as f:
+        f.write(data)
+    runs = [('string_options', lambda: compiler.compile_prolog_from_string(src, ast_io.Ctx)),
+            ('file', lambda: compiler.compile_prolog_from_file(path)),
+            ('file_options', lambda: compiler.compile_prolog_from_file(path, ast_io.Ctx)),
+            ('cli_file', lambda: _cli_inprocess([path], b'', d)),
+            ('cli_stdin', lambda: _cli_inprocess(['-'], data, d))]
+    if case.get('cli_sub'):
+        runs += [('real_cli_file', lambda: _cli_real([path], b'', d)), ('real_cli_stdin', lambda: _cli_real(['-'], data, d))]
+    out = {}
+    main_obs = None
+    for name, fn in runs:
+        try:
+            text = fn()
+        except RecursionError:
+            out[name] = ['skipped', 'RecursionError']
+            continue
+        except BaseException as e:
+            out[name] = ['raised', type(e).__name__, str(e)[:200]]
+            continue
+        if text == code:
+            out[name] = ['same']
+            continue
+        try:
+            if main_obs is None:
+                main_obs = _observe_min(E, code, case)
+            obs = _observe_min(E, text, case)
+        except Exception as e:
+            out[name] = ['differs', False, 'its output cannot be loaded / queried: %s' % type(e).__name__]
+            continue
+        detail = ''
+        if obs != main_obs:
+            for i, (a, b) in enumerate(zip(obs['lits'], main_obs['lits'])):
+                if a != b:
+                    detail = 'literal %d denotes %r, compiled from the string %r' % (i, a[0][:1], b[0][:1])
+                    break
+            else:
+                detail = 'the atoms differ'
+        out[name] = ['differs', obs == main_obs, detail[:400]]
+    shutil.rmtree(d, ignore_errors=True)
+    return out
+
 def impl(case):
     from yldprolog import engine as E
     from yldprolog.compiler import compile_prolog_from_string
@@ -385,6 +677,11 @@ def impl(case):
     except Exception as e:
         ast = ['raised', type(e).__name__]
     out = {'compile': ['ok'], 'ast': ast, 'lits': [], 'atoms': []}
+    out['entries'] = _entry_points(E, case, code)
+    # all literals together in one head / one body
+    for pred in ('allh', 'allb'):
+        Rs = [yp.variable() for _ in case['lits']]
+        out[pred] = [[[_topy(E, R), _struct(yp, R)] for R in Rs] for _ in yp.query(pred, Rs)]
     for i, lit in enumerate(case['lits']):
         vs = named_vars(lit)
         env = case['envs'][i]
@@ -586,12 +883,33 @@ def _expected_from(lits, case, io):
             return 'literal %d: query variable still bound after the query' % i
     return None
 
+ENTRY_NAMES = {'string_options': 'compile_prolog_from_string with an options class', 'file': 'compile_prolog_from_file (the UTF-8 bytes of the same text)',
+               'file_options': 'compile_prolog_from_file with an options class', 'cli_file': 'the command line reading the file',
+               'cli_stdin': 'the command line reading standard input', 'real_cli_file': 'python -m yldprolog.compiler <file>',
+               'real_cli_stdin': 'python -m yldprolog.compiler - (standard input)'}
+
+def _entries_and_all(lits, case, io):
+    for name, r in io.get('entries', {}).items():
+        if r[0] == 'raised':
+            return 'the program compiles from a string, but %s raised %s: %s' % (ENTRY_NAMES.get(name, name), r[1], r[2])
+        if r[0] == 'differs' and not r[1]:
+            return 'compiled through %s: %s' % (ENTRY_NAMES.get(name, name), r[2])
+    for pred, what in (('allh', 'all literals in one clause head'), ('allb', 'all literals in one clause body')):
+        a = io[pred]
+        if len(a) != 1 or len(a[0]) != len(lits):
+            return '%s: %d answers instead of one' % (what, len(a))
+        for i, lit in enumerate(lits):
+            free = py_of(lit, {})
+            if not has_raise(free) and a[0][i][0] != free:
+                return '%s: to_python of literal %d gives %r, expected %r' % (what, i, a[0][i][0], free)
+    return None
+
 def oracle(case, io):
     if not isinstance(io, dict):
         return None
     if io['compile'][0] != 'ok':
         return 'a program of literals does not compile: %r' % (io['compile'],)
-    r = _expected_from(case['lits'], case, io)
+    r = _expected_from(case['lits'], case, io) or _entries_and_all(case['lits'], case, io)
     if r:
         return r
     if io['nil'] != NIL_WANT:
@@ -646,7 +964,7 @@ def compare(case, io, mo):
     lits = _model_lits(case, prog)
     if lits is None:
         return 'model program lacks a fact clause'
-    r = _expected_from([_unnumber(l) for l in lits], case, io)
+    r = _expected_from([_unnumber(l) for l in lits], case, io) or _entries_and_all([_unnumber(l) for l in lits], case, io)
     if r:
         return r
     # the values that the proved specification lit_py (Lang/Denote.v, theorem C16_to_python_literal) prescribes, computed
@@ -668,6 +986,11 @@ def compare(case, io, mo):
             return 'literal %d: the compiled fact builds the term %r, the literal denotes %r' % (i, o['struct'], mv[2])
         if o['api_struct'] != [mv[2], mv[2]]:
             return 'literal %d: the API constructors build %r, the literal denotes %r' % (i, o['api_struct'], mv[2])
+        for pred in ('allh', 'allb'):
+            if [io[pred][0][i][1]] != [mv[2]]:
+                return 'literal %d, all literals in one clause (%s): the program builds the term %r, the literal denotes %r' % (i, pred, io[pred][0][i][1], mv[2])
+            if free != _UNSPEC and io[pred][0][i][0] != free:
+                return 'literal %d, all literals in one clause (%s): to_python gives %r, the specification (lit_py) prescribes %r' % (i, pred, io[pred][0][i][0], free)
         for pred in POSITIONS:
             if free != _UNSPEC and o[pred + '_free'] != [free]:
                 return 'literal %d in %s position: to_python gives %r, the specification (lit_py) prescribes %r' % (i, pred, o[pred + '_free'], free)
